@@ -99,3 +99,23 @@ Proof.
     rewrite sqrt_sqrt by lra. field. split; lra.
   - apply Rdiv_lt_0_compat; assumption.
 Qed.
+
+(* ---------------- vonMises phantom: the maximum is attained at the mesh point of smallest modulus ---------------- *)
+Lemma cos_pi_abs t : cos (PI * t) = cos (PI * Rabs t).
+Proof.
+  unfold Rabs. destruct (Rcase_abs t) as [H|H]; [|reflexivity].
+  replace (PI * - t) with (- (PI * t)) by ring. rewrite cos_neg. reflexivity.
+Qed.
+
+Theorem vonmises_max_at_min_abs p t tm : 0 <= p -> Rabs tm <= Rabs t -> Rabs t <= 1 ->
+  ph_vonmises_R p t tm <= 1 /\ ph_vonmises_R p tm tm = 1.
+Proof.
+  intros Hp H1 H2. unfold ph_vonmises_R. split.
+  - rewrite <- exp_0. destruct (Req_dec (p * (cos (PI * t) - cos (PI * tm))) 0) as [E|E]; [rewrite E; right; reflexivity|].
+    left. apply exp_increasing.
+    assert (C : cos (PI * t) <= cos (PI * tm)).
+    { rewrite (cos_pi_abs t), (cos_pi_abs tm). pose proof PI_RGT_0 as HPI. pose proof (Rabs_pos tm) as P1. pose proof (Rabs_pos t) as P2.
+      apply cos_decr_1; nra. }
+    nra.
+  - replace (p * (cos (PI * tm) - cos (PI * tm))) with 0 by ring. apply exp_0.
+Qed.
